@@ -612,6 +612,132 @@ class _CompToLoop(ast.NodeTransformer):
         out = out if isinstance(out, list) else [out]
         return out + [ast.copy_location(ast.Return(value=ast.Name(id=name, ctx=ast.Load())), node)]
 
+_PURE_METHODS = {"endswith", "startswith", "lower", "upper", "strip", "rstrip", "lstrip", "get", "isdigit", "keys", "values",
+                 "items", "fullmatch", "match", "search", "compile", "execute"}
+
+
+def _pure_expr(e) -> bool:
+    """Syntactically free of effects: names, attributes, constants, comparisons, boolean / arithmetic operators,
+    subscripts, tuples, and calls of a few query methods of str / dict."""
+    for n in ast.walk(e):
+        if isinstance(n, ast.Call):
+            if not (isinstance(n.func, ast.Attribute) and n.func.attr in _PURE_METHODS and not n.keywords):
+                return False
+        elif isinstance(n, (ast.Await, ast.Yield, ast.YieldFrom, ast.NamedExpr, ast.Lambda, ast.ListComp, ast.SetComp,
+                            ast.DictComp, ast.GeneratorExp, ast.Starred)):
+            return False
+    return True
+
+
+def _filter_map_loop(init, loop):
+    """`X = []` followed by `for T in IT:` whose body only filters (guards with `continue`, or one `if`) and appends
+    one pure expression to X: returns (X, element, condition or None), else None."""
+    if not (isinstance(init, ast.Assign) and len(init.targets) == 1 and isinstance(init.targets[0], ast.Name)
+            and isinstance(init.value, ast.List) and not init.value.elts):
+        return None
+    if not isinstance(loop, ast.For) or loop.orelse:
+        return None
+    x = init.targets[0].id
+    if not all(isinstance(n, ast.Name) for n in ast.walk(loop.target) if not isinstance(n, (ast.Tuple, ast.List, ast.Store))):
+        return None
+    conds = []
+    body = list(loop.body)
+    while body and isinstance(body[0], ast.If) and not body[0].orelse and len(body[0].body) == 1 \
+            and isinstance(body[0].body[0], ast.Continue):
+        conds.append(ast.UnaryOp(op=ast.Not(), operand=body[0].test))
+        body = body[1:]
+    if len(body) == 1 and isinstance(body[0], ast.If) and not body[0].orelse and len(body[0].body) == 1:
+        conds.append(body[0].test)
+        body = body[0].body
+    if len(body) != 1:
+        return None
+    st = body[0]
+    if not (isinstance(st, ast.Expr) and isinstance(st.value, ast.Call) and isinstance(st.value.func, ast.Attribute)
+            and st.value.func.attr == "append" and isinstance(st.value.func.value, ast.Name)
+            and st.value.func.value.id == x and len(st.value.args) == 1 and not st.value.keywords):
+        return None
+    elt = st.value.args[0]
+    if not _pure_expr(elt) or not all(_pure_expr(c) for c in conds) or not _pure_expr(loop.iter):
+        return None
+    if any(isinstance(n, ast.Name) and n.id == x for part in [elt, loop.iter] + conds for n in ast.walk(part)):
+        return None
+    return x, elt, conds
+
+
+def _search_loop(loop):
+    """`for T in IT: if C: return K` with pure C and a constant K: returns (C, the return statement), else None."""
+    if not isinstance(loop, ast.For) or loop.orelse or len(loop.body) != 1:
+        return None
+    st = loop.body[0]
+    if not (isinstance(st, ast.If) and not st.orelse and len(st.body) == 1 and isinstance(st.body[0], ast.Return)):
+        return None
+    ret = st.body[0]
+    if ret.value is not None and not isinstance(ret.value, ast.Constant):
+        return None
+    if not _pure_expr(st.test) or not _pure_expr(loop.iter):
+        return None
+    return st.test, ret
+
+
+class _LoopToComp(ast.NodeTransformer):
+    """The inverse of _CompToLoop for loops nobody wrote a contract for: `X = []; for T in IT: [guards] X.append(E)`
+    with pure E / guards is the list comprehension `X = [E for T in IT if guards]`, and is read as one.  Applied only
+    while the function has more loops than its contract describes (`budget`), in source order."""
+
+    def __init__(self, budget):
+        self.budget = budget
+
+    def _rewrite(self, stmts):
+        out = []
+        k = 0
+        while k < len(stmts):
+            st = stmts[k]
+            nxt = stmts[k + 1] if k + 1 < len(stmts) else None
+            found = _search_loop(st) if self.budget > 0 else None
+            if found is not None:
+                # `for T in IT: if C: return K`  ==  `if any(C for T in IT): return K`
+                cond, ret = found
+                gen = ast.GeneratorExp(elt=cond, generators=[ast.comprehension(target=st.target, iter=st.iter, ifs=[], is_async=0)])
+                test = ast.Call(func=ast.Name(id="any", ctx=ast.Load()), args=[gen], keywords=[])
+                out.append(ast.copy_location(ast.If(test=test, body=[ret], orelse=[]), st))
+                self.budget -= 1
+                k += 1
+                continue
+            m = _filter_map_loop(st, nxt) if (self.budget > 0 and nxt is not None) else None
+            if m is not None:
+                x, elt, conds = m
+                comp = ast.ListComp(elt=elt, generators=[ast.comprehension(target=nxt.target, iter=nxt.iter, ifs=conds, is_async=0)])
+                out.append(ast.copy_location(ast.Assign(targets=[ast.Name(id=x, ctx=ast.Store())], value=comp), st))
+                self.budget -= 1
+                k += 2
+                continue
+            out.append(self.generic_visit(st))
+            k += 1
+        return out
+
+    def generic_visit(self, node):
+        for field in ("body", "orelse", "finalbody"):
+            v = getattr(node, field, None)
+            if isinstance(v, list) and v and isinstance(v[0], ast.stmt):
+                setattr(node, field, self._rewrite(v))
+        for h in getattr(node, "handlers", []) or []:
+            h.body = self._rewrite(h.body)
+        return node
+
+
+def _count_loops(fn_node) -> int:
+    n = 0
+    stack = list(fn_node.body)
+    while stack:
+        x = stack.pop()
+        if isinstance(x, (ast.FunctionDef, ast.AsyncFunctionDef, ast.Lambda, ast.ClassDef)):
+            continue
+        if isinstance(x, (ast.For, ast.AsyncFor, ast.While)):
+            n += 1
+        stack.extend(ast.iter_child_nodes(x))
+    return n
+
+
 def transformed_function(relpath: str, qual: str, while_specs=(), extra_havoc=None):
     """Return (code_factory, info).  code_factory(globals) -> python function object."""
     src, node = find_def(relpath, qual)
@@ -626,6 +752,11 @@ def transformed_function(relpath: str, qual: str, while_specs=(), extra_havoc=No
         node = pre.visit(node)
         ast.fix_missing_locations(node)
         pre_failed = pre.failed
+    described = (max(while_specs) + 1) if while_specs else 0
+    extra_loops = _count_loops(node) - described
+    if extra_loops > 0:
+        _LoopToComp(extra_loops).generic_visit(node)
+        ast.fix_missing_locations(node)
     tr = Transformer(while_specs, extra_havoc)
     new = tr.visit(node)
     tr.unsupported.extend(pre_failed)
